@@ -21,7 +21,15 @@ class Origins:
     def place_str(self, pl, depth=0, seen=()):
         base = self.local_str(pl['l'], depth, seen)
         out = []
-        for e in pl['p']:
+        proj = pl['p']
+        if pl['l'] == 1 and self.b.upvars:
+            # closure environment: `_1.N` is the N-th captured variable
+            fs = [e for e in proj if e.startswith('.')]
+            if fs and fs[0] in self.b.upvars:
+                base = self.b.upvars[fs[0]]
+                i = proj.index(fs[0])
+                proj = proj[i + 1:]
+        for e in proj:
             if e.startswith('.') and not e[1:].isdigit():
                 out.append(e)
             elif e.startswith('.') and e[1:].isdigit():
